@@ -8,12 +8,14 @@ From TL Require Import Lib.Base Lib.GenTypes Model.RustSafetyTypes Model.RustSaf
 Definition attr_plain (needle : string) (sem : string -> bool) (s : sib) : bool :=
   match s with SAttr t => Bool.eqb (contains needle t) (sem t) | SComment => true end.
 
+Definition bare_net_pat : path_pat := pat 2 [(0, PIn net_types)].
+
 (* outside the defect classes, node by node:
    - no reportable call inside a macro invocation;
    - on functions "test" occurs in an attribute exactly when it marks a test function, on modules "cfg(test)"
      occurs exactly when the attribute implies cfg(test)  (comments among the attributes are harmless since def5e3f);
-   - a method call is on the line where its receiver chain starts; no clone in a `for` iterator expression
-   (every call path is classified as documented since e1a1fd7) *)
+   - a method call is on the line where its receiver chain starts; no clone in a `for` iterator expression;
+   - no call path of the form NetType::method *)
 Definition plain_ok (w : linter) (g : gctx) (k : kind) (cs : list node) : bool :=
   (negb (g_macro g) || negb (risky w k)) &&
   match k with
@@ -25,6 +27,7 @@ Definition plain_ok (w : linter) (g : gctx) (k : kind) (cs : list node) : bool :
     | LClone => (sl =? ml) && (negb (g_forhdr g) || negb (String.eqb name "clone"))
     | LBlocking => true
     end
+  | KCall _ _ path => match w with LBlocking => negb (pat_matches path bare_net_pat) | _ => true end
   | _ => true
   end.
 
@@ -69,6 +72,22 @@ Proof.
   unfold has_attr. rewrite existsb_rev. apply eqb_reflx.
 Qed.
 
+(* ------------------------------------------------------------------ call paths *)
+Lemma code_table_shape :
+  blocking_classes = [("fs-in-async", [pat 3 [(0, PEq "std"); (1, PEq "fs"); (2, PIn fs_functions)]; pat 2 [(0, PEq "fs"); (1, PIn fs_functions)]]);
+                      ("sleep-in-async", [pat 3 [(0, PEq "std"); (1, PEq "thread"); (2, PEq "sleep")]; pat 2 [(0, PEq "thread"); (1, PEq "sleep")]]);
+                      ("net-in-async", [pat 3 [(0, PEq "std"); (1, PEq "net"); (2, PIn net_types)]; pat 2 [(0, PEq "net"); (1, PIn net_types)]])].
+Proof. reflexivity. Qed.
+
+Lemma classify_plain path : pat_matches path bare_net_pat = false ->
+  classify_path blocking_classes path = classify_path spec_blocking_classes path.
+Proof.
+  intros H. rewrite code_table_shape. unfold spec_blocking_classes. cbn [classify_path].
+  destruct (existsb (pat_matches path) _); [reflexivity|].
+  destruct (existsb (pat_matches path) _); [reflexivity|].
+  cbn [existsb]. fold bare_net_pat. rewrite H. reflexivity.
+Qed.
+
 (* ------------------------------------------------------------------ plain files pass the faithful model's guard *)
 Lemma plain_ok_gok w g k cs : plain_ok w g k cs = true -> gok w rust_actual g k cs = true.
 Proof.
@@ -78,7 +97,8 @@ Proof.
   - exact (attrs_plain_ok _ cfg_attr_needle attr_is_cfg_test pre A2 C2 H2).
   - exact (attrs_plain_ok _ test_attr_needle attr_is_test_fn pre A1 C1 H2).
   - destruct w; cbn [rust_actual q_chain_start_line negb orb]; exact H2.
-  - destruct w; try reflexivity. rewrite (classes_documented rust_actual path). apply ostr_eqb_refl.
+  - destruct w; try reflexivity. apply negb_true_iff in H2.
+    change (blocking_classes_of rust_actual) with blocking_classes. rewrite (classify_plain path H2). apply ostr_eqb_refl.
 Qed.
 
 Lemma file_plain_guard w file : file_plain w file = true -> file_guard w rust_actual file = true.
